@@ -409,6 +409,7 @@ func checkSeq(c seqCase) (string, string) {
 
 func main() {
 	h := hx.New("C05")
+	registerNames(h)
 	h.Seq("sequences", func(s *hx.Seq) {
 		var rc seqCase
 		if s.Replaying(&rc) {
